@@ -80,6 +80,9 @@ class VLoop(asyncio.BaseEventLoop):
         # wake-up of a lock waiter).  Default here: one timer per iteration; with batch choices on, each further
         # candidate (same window as the 'timer' choice) joins the batch - choice kind 'batch' (0 = alone, 1 = all).
         self.batch_choices_enabled = False
+        # a loaded host: every timer wake-up is late by `stall` seconds (the clock has moved on by that much when the
+        # callback runs) - code that counts polls instead of reading the clock drifts under it
+        self.stall = 0.0
 
     # ---- clock / scheduling ---------------------------------------------------------
     def time(self):
@@ -185,6 +188,8 @@ class VLoop(asyncio.BaseEventLoop):
             heapq.heapify(timers)
         if ent[0] > self._vtime:
             self._vtime = ent[0]
+        if self.stall:
+            self._vtime += self.stall
         ent[2]._scheduled = False
         self._ready.append(ent[2])
         self.timer_pops += 1
